@@ -15,6 +15,7 @@ import (
 	"go/ast"
 	"go/printer"
 	"go/token"
+	"strings"
 )
 
 func init() { extractors = append(extractors, extractC17) }
@@ -160,4 +161,72 @@ func extractC17(f *facts) {
 	}
 	f.def("c17IterNilGuard", "Bool", leanBool(nilGuard))
 	f.def("c17IterXExpr", "List Nat", leanBytes(xExpr))
+
+	extractC17Command(f)
+}
+
+// the plot command's glue (plot.go): flag names and default values of plotCmd, the call of
+// plotRun with the flag values, the default input, and the options plotRun hands to plot.New.
+func extractC17Command(f *facts) {
+	file := f.parse("plot.go")
+	var flags [][2]string // name, default (source text)
+	var callArgs, newOpts []string
+	defaultInput := ""
+	if fd := funcDecl(file, "", "plotCmd"); fd != nil && fd.Body != nil {
+		ast.Inspect(fd.Body, func(x ast.Node) bool {
+			switch n := x.(type) {
+			case *ast.CallExpr:
+				if sel, ok := n.Fun.(*ast.SelectorExpr); ok {
+					if id, ok := sel.X.(*ast.Ident); ok && id.Name == "fs" && len(n.Args) == 3 &&
+						(sel.Sel.Name == "Int" || sel.Sel.Name == "String") {
+						if bl, ok := n.Args[0].(*ast.BasicLit); ok {
+							flags = append(flags, [2]string{bl.Value, c17Src(f, n.Args[1])})
+						}
+					}
+				}
+				if id, ok := n.Fun.(*ast.Ident); ok && id.Name == "plotRun" {
+					callArgs = nil
+					for _, a := range n.Args {
+						callArgs = append(callArgs, c17Src(f, a))
+					}
+				}
+			case *ast.IfStmt:
+				// if len(files) == 0 { files = append(files, "stdin") }
+				if c17Src(f, n.Cond) == "len(files) == 0" && len(n.Body.List) == 1 {
+					defaultInput = c17Src(f, n.Body.List[0])
+				}
+			}
+			return true
+		})
+	}
+	var params []string
+	if fd := funcDecl(file, "", "plotRun"); fd != nil && fd.Body != nil {
+		for _, fl := range fd.Type.Params.List {
+			for _, nm := range fl.Names {
+				params = append(params, nm.Name)
+			}
+		}
+		ast.Inspect(fd.Body, func(x ast.Node) bool {
+			if n, ok := x.(*ast.CallExpr); ok {
+				if sel, ok := n.Fun.(*ast.SelectorExpr); ok && sel.Sel.Name == "New" {
+					if id, ok := sel.X.(*ast.Ident); ok && id.Name == "plot" {
+						newOpts = nil
+						for _, a := range n.Args {
+							newOpts = append(newOpts, c17Src(f, a))
+						}
+					}
+				}
+			}
+			return true
+		})
+	}
+	parts := make([]string, 0, len(flags))
+	for _, fl := range flags {
+		parts = append(parts, "("+leanBytes(fl[0])+", "+leanBytes(fl[1])+")")
+	}
+	f.def("c17PlotFlags", "List (List Nat × List Nat)", "["+strings.Join(parts, ", ")+"]")
+	f.def("c17PlotRunCallArgs", "List (List Nat)", leanBytesList(callArgs))
+	f.def("c17PlotRunParams", "List (List Nat)", leanBytesList(params))
+	f.def("c17PlotDefaultInput", "List Nat", leanBytes(defaultInput))
+	f.def("c17PlotNewOpts", "List (List Nat)", leanBytesList(newOpts))
 }
